@@ -26,7 +26,7 @@ MOVE = {
     'gather': ([0], [1]), 'scatter': ([0, 2], [1]), 'dynamic_slice': ([0], 'rest'),
     'dynamic_update_slice': ([0, 1], 'rest'),
 }
-TRANSC = ('exp', 'log', 'tanh', 'log1p', 'atan2', 'acos', 'asin', 'sin', 'cos', 'expm1', 'atan',
+TRANSC = ('atanh', 'exp', 'log', 'tanh', 'log1p', 'atan2', 'acos', 'asin', 'sin', 'cos', 'expm1', 'atan',
           'sinh', 'cosh', 'tan', 'erf', 'logistic', 'erf_inv', 'exp2', 'floor', 'ceil', 'round')
 CALLS = {'jit': 'jaxpr', 'pjit': 'jaxpr', 'closed_call': 'call_jaxpr', 'core_call': 'call_jaxpr',
          'custom_jvp_call': 'call_jaxpr', 'custom_vjp_call': 'call_jaxpr', 'remat': 'jaxpr',
@@ -160,6 +160,8 @@ class Interp:
       return self.cond(eqn, ins)
     if p == 'while':
       return self.while_(eqn, ins)
+    if not anysym and getattr(A, 'name', '') == 'sym' and p in TRANSC and len(ins) == 1 and np.asarray(ins[0]).dtype.kind == 'f':
+      return [self.ew(lambda a: A.fn(p, a), ins[0])]          # keep log(2), exp(1), ... exact in the SYM back end
     if not anysym:
       o = eqn.primitive.bind(*[x if (hasattr(x, 'dtype') and cj.is_key_dtype(x.dtype)) else jnp.asarray(x) for x in ins], **P)
       o = o if eqn.primitive.multiple_results else [o]
